@@ -468,7 +468,9 @@ def run(pid, tier, seed, replay=None):
         if pid in MULTI_JUDGE:
             # multi-section documents: the clauses of this property that the statement extends to them
             import multisec
-            mconsts = dict(MaxSec=3 if tier == "thorough" else 2, RowSet={0, 1, 3}, ColSet={1, 2, 3}, HdrSet={"explicit", "none"},
+            # (three sections in the thorough tier, with two row counts and two column counts: the product stays near 10^5)
+            mconsts = dict(MaxSec=3 if tier == "thorough" else 2, RowSet={0, 2} if tier == "thorough" else {0, 1, 3},
+                           ColSet={1, 3} if tier == "thorough" else {1, 2, 3}, HdrSet={"explicit", "none"},
                            FootSet={"none", "table", "para"} if tier == "thorough" else {"none", "table"}, BoolSet={False, True}, NrowSet={3, 40},
                            BodySet={"own", "shared", "sharedw"}, PbSet={"none", "rot"})
             mgot = family.generate(ctx, work, "MultiSec", mconsts, "multisec")
